@@ -168,15 +168,19 @@ class Preservative:
                     tagline = ""
                     for line in lines:
                         cleaned_up_line = CleanUpLine(line)
-                        if not replace or (replace and (not tag_found or (cleaned_up_line in tagline and self._TAG_PREFIX_ in cleaned_up_line))):
+                        # Only a line that carries the tag prefix is a tag line (as in CollectFile): ordinary
+                        # text that merely cleans up to a tag name (e.g. '{{{ USER_X }}}') must not open or
+                        # close a block, nor survive inside a replaced block.
+                        is_tag_line = line.find(self._TAG_PREFIX_) > -1
+                        if not replace or (replace and (not tag_found or (is_tag_line and cleaned_up_line in tagline and self._TAG_PREFIX_ in cleaned_up_line))):
                             new_lines.append(line)
-                        if not tag_found and (cleaned_up_line in tags):
+                        if not tag_found and is_tag_line and (cleaned_up_line in tags):
                             tagline = line
                             tag_found = True
                             self.preserved_tags_per_file_WAS_USED[outputfile][cleaned_up_line] = True
                             for i in tags[cleaned_up_line]:
                                 new_lines.append(i)
-                        elif tag_found and (cleaned_up_line in tags):  # 2nd tag...
+                        elif tag_found and is_tag_line and (cleaned_up_line in tags):  # 2nd tag...
                             tag_found = False
                             tagline = ""
                     filenames_to_lines[fn] = new_lines
